@@ -854,6 +854,14 @@ def s_div(a, b):
     return _wrap2(operator.truediv, 'div')(a, b)
 
 
+POW_ATOMS = {}            # name of an opaque power atom -> (base, rational exponent)
+
+
+def Z8_ONE():
+    from .algebra import Z8
+    return Z8.ONE
+
+
 def s_pow(a, b):
     from .algebra import Poly, Rat, AlgebraError
     if isinstance(a, Choice) or isinstance(b, Choice):
@@ -875,13 +883,24 @@ def s_pow(a, b):
             return (Poly.const(a) ** b).const_value().rational()
         except AlgebraError:
             return Poly.sym('pow(%s,%s)' % (a, b))
+    # (X ** (1/n)) ** n is X for the principal root: undo an opaque root when it is raised to a matching integer power
+    if isinstance(a, Poly) and isinstance(b, (int, Fr)) and len(a.t) == 1:
+        (mono, c), = a.t.items()
+        if len(mono) == 1 and mono[0][1] == 1 and mono[0][0] in POW_ATOMS and c == Z8_ONE():
+            base, p0 = POW_ATOMS[mono[0][0]]
+            e = Fr(p0) * Fr(b)
+            if e.denominator == 1 and Fr(1, 1) / Fr(p0) == int(Fr(1, 1) / Fr(p0)) and int(b) == b and b > 0:
+                return s_pow(base, int(e))
     try:
         r = operator.pow(a, b)
     except (TypeError, AlgebraError):
         r = NotImplemented
     if r is NotImplemented:
         if hasattr(a, 'key') and hasattr(b, 'key') or isinstance(b, (Poly, Rat)) or isinstance(a, (Poly, Rat)):
-            return Poly.sym('pow(%r,%r)' % (a, b))
+            name = 'pow(%r,%r)' % (a, b)
+            if isinstance(a, (Poly, Rat)) and isinstance(b, Fr):
+                POW_ATOMS[name] = (a, b)
+            return Poly.sym(name)
         raise AnalysisError('unsupported pow %r ** %r' % (a, b))
     return r
 
